@@ -49,6 +49,11 @@ def jobs(tier, seed):
         for key in sorted(set(_re.findall(r'"share", "(\w+)"', _json.dumps(d)))):
             add(d, pre=[["eval", key, "q"]])                       # a shared node evaluated on its own first (possibly outside its domain)
             add(d, pre=[["eval", key, "q"], ["normalize", "root", None]])
+    # the main point first (inside or outside the domain), then the caches refilled at another point elsewhere, then the main point again
+    for d in fam.f1_shared(tier) + [["Logarithm", ["Add", fam.X, ["const", 1]]], ["Reciprocal", ["Minus", ["Multiply", fam.X, fam.Y], ["const", 1]]],
+                                    ["NthRoot", ["Add", ["NthPower", fam.X, 3], fam.Y], 2]]:
+        for pre in fam.sandwiches(d):
+            add(d, pre=pre, var="x")
     m = masked()
     for d in (m if tier == "thorough" else m[::2]):
         add(d)
